@@ -58,7 +58,13 @@ type job struct {
 	Engine    string    `json:"engine"`
 	OrderSeed int64     `json:"order_seed"`
 	Out       string    `json:"out"`
+	// CtxKind: what the embedder's context of the guest call carries.  Under default configuration (no
+	// WithCloseOnContextDone) a deadline or value in it is none of the guest's business: "" (Background),
+	// "timeout-1h", "timeout-1500ms" (shorter than the guest's 5 s poll_oneoff timeouts, longer than any run), "value"
+	CtxKind string `json:"ctx_kind,omitempty"`
 }
+
+type ctxKey struct{}
 
 type runResult struct {
 	Idx       int    `json:"idx"`
@@ -154,7 +160,16 @@ func childMain() {
 		// a default context never blocks; 20 s is > 1000x the slowest normal run
 		call := func(m api.Module) (error, bool) {
 			done := make(chan error, 1)
-			go func() { _, e := m.ExportedFunction("run").Call(ctx); done <- e }()
+			cctx, cancel := ctx, context.CancelFunc(func() {})
+			switch j.CtxKind {
+			case "timeout-1h":
+				cctx, cancel = context.WithTimeout(ctx, time.Hour)
+			case "timeout-1500ms":
+				cctx, cancel = context.WithTimeout(ctx, 1500*time.Millisecond)
+			case "value":
+				cctx = context.WithValue(ctx, ctxKey{}, "embedder")
+			}
+			go func() { defer cancel(); _, e := m.ExportedFunction("run").Call(cctx); done <- e }()
 			select {
 			case e := <-done:
 				return e, true
@@ -225,6 +240,7 @@ type variant struct {
 	TZ       string   `json:"tz"`
 	MaxProcs int      `json:"gomaxprocs"`
 	DelayMs  int      `json:"delay_ms"`
+	CtxKind  string   `json:"ctx_kind,omitempty"`
 	out      childOut
 	stdout   []byte
 	stderr   []byte
@@ -252,7 +268,7 @@ func runChild(v *variant, progs []program, dir string) {
 	}
 	jobPath := filepath.Join(dir, fmt.Sprintf("job-%d.json", v.ID))
 	outPath := filepath.Join(dir, fmt.Sprintf("out-%d.json", v.ID))
-	j := job{Programs: progs, Engine: v.Engine, OrderSeed: int64(v.ID) * 7919, Out: outPath}
+	j := job{Programs: progs, Engine: v.Engine, OrderSeed: int64(v.ID) * 7919, Out: outPath, CtxKind: v.CtxKind}
 	bs, _ := json.Marshal(j)
 	if err := os.WriteFile(jobPath, bs, 0o644); err != nil {
 		hx.Fatal("job: %v", err)
@@ -523,6 +539,7 @@ func runBatch(r *rand.Rand, batch, nprog, nhost int, dir string) bool {
 	for h := 0; h < nhost; h++ {
 		for _, e := range []string{"interpreter", "compiler"} {
 			v := &variant{ID: len(vars), Engine: e, TZ: tzs[(h+batch)%len(tzs)], MaxProcs: []int{1, 2, 4, 7}[(h+len(vars)+batch)%4], DelayMs: len(vars) * 41}
+			v.CtxKind = []string{"", "timeout-1500ms", "value", "timeout-1h"}[v.ID%4]
 			for _, tag := range []string{"ENV", "ARG", "CWD", "STDIN", "FILE"} {
 				v.Secrets = append(v.Secrets, secret(r, tag))
 			}
@@ -671,7 +688,7 @@ func runBatch(r *rand.Rand, batch, nprog, nhost int, dir string) bool {
 			if vr.Idx != p.Idx {
 				hx.Fatal("result order")
 			}
-			who := fmt.Sprintf("child %d engine=%s TZ=%s GOMAXPROCS=%d started +%dms", v.ID, v.Engine, v.TZ, v.MaxProcs, v.DelayMs)
+			who := fmt.Sprintf("child %d engine=%s TZ=%s GOMAXPROCS=%d started +%dms call-context=%q", v.ID, v.Engine, v.TZ, v.MaxProcs, v.DelayMs, v.CtxKind)
 			for inst, m := range [][]byte{vr.MemA, vr.MemB} {
 				es := []string{vr.ErrA, vr.ErrB}[inst]
 				h := sha256.Sum256(p.Wasm)
